@@ -94,7 +94,8 @@ func c20(c *Check) {
 				c.Ok("C20/no-other-money-movement", funcName(fn)+" calls bank."+meth, cs.Ins.Pos(), "read-only")
 				continue
 			}
-			c.Req(allowed[meth] == funcName(fn), "C20/no-other-money-movement", funcName(fn)+" calls bank."+meth, cs.Ins.Pos(), "", fmt.Sprintf("rvesting calls bank.%s from %s", meth, funcName(fn)))
+			own := c.P.Owners(fn)
+			c.Req(len(own) == 1 && allowed[meth] == own[0], "C20/no-other-money-movement", funcName(fn)+" calls bank."+meth, cs.Ins.Pos(), "", fmt.Sprintf("rvesting calls bank.%s from %s", meth, funcName(fn)))
 		}
 	}
 
